@@ -4,8 +4,14 @@
 use std::io::{self, BufRead, Write};
 use std::panic;
 
+mod alloc_ledger;
 mod engines;
 pub mod proto;
+
+// allocation ledger of the `tendril` engine (C12); a pass-through outside its recording windows
+#[global_allocator]
+static GLOBAL: alloc_ledger::Ledger = alloc_ledger::Ledger;
+pub mod sinkops;
 
 fn main() {
     // silence panic messages: a panic is reported as a protocol value
